@@ -381,7 +381,7 @@ class FnEmitter:
 
         # R15a: a function that works on solution nodes (unit directive `heap-functions`) gets the ghost node heap as
         # its last parameter.
-        in_heap = fname in self.heap_fns
+        in_heap = fname in self.heap_fns or ('.' + fname) in self.heap_fns
         if in_heap:
             if popen is None:
                 raise Undecided('cannot find the parameter list of %s' % key)
@@ -644,10 +644,11 @@ class FnEmitter:
             k = bopen
             while k < bclose:
                 t = toks[k]
-                if t.kind == 'id' and t.text in self.heap_fns:
+                if t.kind == 'id' and (t.text in self.heap_fns or ('.' + t.text) in self.heap_fns):
                     pv = prev_sig(toks, k)
                     nx = next_sig(toks, k)
-                    if toks[nx].kind == 'p' and toks[nx].text == '(' and not (toks[pv].kind == 'p' and toks[pv].text in ('.', '::')) and not (toks[pv].kind == 'id' and toks[pv].text == 'fn'):
+                    is_method = toks[pv].kind == 'p' and toks[pv].text == '.' and ('.' + t.text) in self.heap_fns
+                    if toks[nx].kind == 'p' and toks[nx].text == '(' and (is_method or not (toks[pv].kind == 'p' and toks[pv].text in ('.', '::'))) and not (toks[pv].kind == 'id' and toks[pv].text == 'fn'):
                         if not in_heap:
                             raise Undecided('unsupported construct: %s calls the heap function %s but is not a heap function itself' % (key, t.text))
                         cl = match_close(toks, nx)
